@@ -170,7 +170,11 @@ type Exec struct {
 // a Bare program.
 func (x *Exec) SetPoison(f func()) {
 	if !x.Quiet {
-		x.poison = f
+		if prev := x.poison; prev != nil {
+			x.poison = func() { prev(); f() }
+		} else {
+			x.poison = f
+		}
 	}
 }
 
